@@ -13,7 +13,7 @@ namespace ScVerif.C20.Vending
 abbrev VCall := Gau.Call Stock Unit
 
 def dispenseCall (q : Qty) : VCall :=
-  ⟨false, fun _ => none, fun cur _ => (intercept true q cur emptyStock).1, false⟩
+  ⟨false, fun _ => none, fun cur _ => (intercept true q cur emptyStock).1, false, false⟩
 
 /-- one sequential dispense on a record: the all-or-nothing function, an error changing nothing -/
 def dispenseOrKeep (st : Stock) (q : Qty) : Stock := (dispenseStock q st).getD st
